@@ -14,19 +14,19 @@ RULE = ('cases: 1-4 named inputs, each a scalar or a unique-key table over 1 or 
         'floats / None so that overlap, disjointness and emptiness all occur; 1 vs 1.0 across tables), value column named after the input, '
         '"data", or a single other column, or with extra columns; any subset of inputs named in defaults (values 0-8 or None); previously '
         'computed values supplied as a data table over any keys, expiry absent / scalar / table with cells {2000-01-01, 2999-01-01, None} '
-        '(so the wall clock is irrelevant); an exhaustive stream over all overlap patterns of two tables on 3 keys x defaults x expiry '
-        'assignments. f records (key, arguments) of every call and returns the decimal digits of its arguments. Compared inside Coq: the '
+        '(so the wall clock is irrelevant); 40% of the cases go through the dict-output path: f declared with 1-3 named outputs and returning a dict, one cache table per output, each supplied or not; an exhaustive stream over all overlap patterns of two tables on 3 keys x defaults x expiry '
+        'assignments. f records (key, arguments) of every call and returns the decimal digits of its arguments (output i: + 10000 i). Compared inside Coq: the '
         'returned scalar / None / table rows IN ORDER (key columns up to ==) and the multiset of calls. The oracle re-derives from the '
         'property text the expected key set, the order, each value and the exact set of calls. non-trivial = at least one table, and some key '
         'dropped by the inner join, added by a default, or kept from the cache; distinct by input')
 EXPLANATION = ('theorems C20_* (coq/props/C20.v) hold for every f, every list of inputs, every data / expiry assignment: scalar pass-through with one '
                'call; result keys = keys present in every non-default table (union of all tables when there is none); sorted by cmp; value = f of the '
                "row's arguments with defaults filling absent keys; expired rows keep the cached value and are not called; every other row is called "
-               'exactly once (trace = rows needing evaluation, NoDup). The correspondence ties the model to _item / join / _value_output on every run.')
+               'exactly once (trace = rows needing evaluation, NoDup). The C20_dict_output_* companions state the same for functions with named outputs (a row is recomputed iff some output has no supplied cache or the expiry is not in the past). The correspondence ties the model to _item / join / _value_output / _dict_output on every run.')
 TRUSTED = ['modelled, not verified: _item column selection, dictable * and / (their meaning is C02), dictable.sort, Dict.__getitem__(callable) / kwargs_support',
            'today is not modelled: expiries are 2000-01-01 / 2999-01-01 / None']
 ASSUMPTIONS = ['every table input carries all `on` columns and has unique keys; `on` has 1 or 2 columns, in any order, with names before / between / after the value column names; "sorted by key" = lexicographic by cmp in the order of `on`',
-               'no renames, constant defaults, if_none=False, output_is_input=True, include_inputs=False, function without .output',
+               'no renames, constant defaults, if_none=False, output_is_input=True, include_inputs=False; both a plain function (_value_output) and a function with .output (_dict_output)',
                'when the join is empty the call returns the supplied data (or None) instead of an empty table: observed and modelled, not judged by the oracle']
 EXHAUSTIVE = {'quick': False, 'thorough': False}
 LEVEL_TEXT = ('machine-checked Coq theorems (C20_*, every f, any number of inputs, any key sets) about the model of perdictable: pass-through, key set of the '
@@ -41,7 +41,8 @@ EXPV = {'past': PAST, 'future': FUTURE, 'none': None}
 # ------------------------------------------------------------------ Coq side
 def coq_pv(v): return 'VNone' if v is None else '(VInt (%d))' % v
 def coq_key(k): return '[' + '; '.join(coq_cell(c) for c in k) + ']'
-def coq_runner(case): return 'run_perdict'
+def coq_rows(rows): return '[%s]' % '; '.join('(%s, %s)' % (coq_key(k), coq_pv(v)) for k, v in rows)
+def coq_runner(case): return 'run_perdictN' if case.get('outputs') else 'run_perdict'
 def coq_case(case):
     args = []
     for a in case['args']:
@@ -49,14 +50,28 @@ def coq_case(case):
         if a['kind'] == 'scalar':
             args.append('(mkArg (Scalar %s) %s)' % (coq_pv(a['v']), d))
         else:
-            args.append('(mkArg (Table [%s]) %s)' % ('; '.join('(%s, %s)' % (coq_key(k), coq_pv(v)) for k, v in a['rows']), d))
-    dat = 'None' if case['data'] is None else '(Some [%s])' % '; '.join('(%s, %s)' % (coq_key(k), coq_pv(v)) for k, v in case['data']['rows'])
+            args.append('(mkArg (Table %s) %s)' % (coq_rows(a['rows']), d))
+    if case.get('outputs'):
+        dat = '[%s]' % '; '.join('(Some %s)' % coq_rows(c['rows']) if c is not None else 'None' for _, c in cache_list(case))
+    else:
+        dat = 'None' if case['data'] is None else '(Some %s)' % coq_rows(case['data']['rows'])
     x = case['expiry']
     E = {'past': 'EPast', 'future': 'EFuture', 'none': 'ENone'}
     if x is None: xs = 'XAbsent'
     elif 'scalar' in x: xs = '(XScalar %s)' % E[x['scalar']]
     else: xs = '(XTable [%s])' % '; '.join('(%s, %s)' % (coq_key(k), E[e]) for k, e in x['rows'])
     return '([%s], %s, %s)' % ('; '.join(args), dat, xs)
+
+def cache_list(case):
+    """[(output name, supplied cache or None)]: the value path has the single output 'data'"""
+    if case.get('outputs'):
+        return [(o, (case.get('caches') or {}).get(o)) for o in case['outputs']]
+    return [('data', case['data'])]
+def fvals(case, args):
+    """what f returns on args, per output"""
+    if case.get('outputs'):
+        return [fcode(args) + 10000 * (i + 1) for i in range(len(case['outputs']))]
+    return [fcode(args)]
 
 # ------------------------------------------------------------------ implementation side
 def impl_setup():
@@ -98,7 +113,12 @@ def build_inputs(case):
             elif lay == 'other': t = mk_table(on, a['rows'], 'zz_' + n, vals, order=o)
             else: t = mk_table(on, a['rows'], n, vals, {'zz1': 77, 'zz2': 'q'}, order=o)
             inputs[n] = t
-    if case['data'] is not None:
+    for o, c in (cache_list(case) if case.get('outputs') else []):
+        if c is not None:
+            lay = c.get('layout', 'named')
+            col = o if lay == 'named' else 'data' if lay == 'data' else 'zz_' + o
+            inputs[o] = mk_table(on, c['rows'], col, [v for _, v in c['rows']], order=c.get('order', 0))
+    if case['data'] is not None and not case.get('outputs'):
         inputs['data'] = mk_table(on, case['data']['rows'], 'data', [v for _, v in case['data']['rows']], order=case['data'].get('order', 0))
     x = case['expiry']
     if x is not None:
@@ -124,26 +144,27 @@ def pykey(k):
     return tuple(py_cell(c, nans) for c in k)
 
 def expected(case):
-    """-> ('scalar', args) | ('table', [(key, args, runs, cached)] sorted by key) from the property text"""
+    """-> ('scalar', args) | ('table', [(key, args, runs, cached values per output)] sorted by key) from the property text"""
     tables = [a for a in case['args'] if a['kind'] == 'table']
-    cache = {kcanon(pykey(k)): v for k, v in case['data']['rows']} if case['data'] is not None else None
+    cl = cache_list(case)
+    cmaps = [({kcanon(pykey(k)): v for k, v in c['rows']} if c is not None else None) for _, c in cl]
     x = case['expiry']
     xt = {kcanon(pykey(k)): e for k, e in x['rows']} if (x is not None and 'rows' in x) else None
-    if not tables and cache is None and xt is None:
+    if not tables and all(m is None for m in cmaps) and xt is None:
         return 'scalar', [a['v'] for a in case['args']]
     maps = {a['name']: {kcanon(pykey(k)): v for k, v in a['rows']} for a in tables}
     keyobjs = {}
     for a in tables:
         for k, _ in a['rows']: keyobjs.setdefault(kcanon(pykey(k)), pykey(k))
-    if cache is not None:
-        for k, _ in case['data']['rows']: keyobjs.setdefault(kcanon(pykey(k)), pykey(k))
+    for _, c in cl:
+        if c is not None:
+            for k, _ in c['rows']: keyobjs.setdefault(kcanon(pykey(k)), pykey(k))
     if xt is not None:
         for k, _ in x['rows']: keyobjs.setdefault(kcanon(pykey(k)), pykey(k))
     inner = [a for a in tables if 'default' not in a]
     keys = [c for c in keyobjs if all(c in maps[a['name']] for a in inner)]       # present in every table input without a default
-    if inner:
-        keys = [c for c in keys if c in maps[inner[0]['name']]]
     keys.sort(key=lambda c: korder(keyobjs[c]))
+    all_supplied = all(m is not None for m in cmaps)      # a previously computed value is supplied for every output
     rows = []
     for c in keys:
         args = []
@@ -154,49 +175,76 @@ def expected(case):
         if x is None: e = 'none'
         elif 'scalar' in x: e = x['scalar']
         else: e = xt.get(c, 'none')
-        runs = cache is None or e != 'past'
-        rows.append((c, args, runs, cache.get(c) if cache is not None else None))
+        runs = (not all_supplied) or e != 'past'
+        rows.append((c, args, runs, [m.get(c) if m is not None else None for m in cmaps]))
     return 'table', rows
 
 def impl(case):
     inputs, defaults = build_inputs(case)
     names = [a['name'] for a in case['args']]
+    outs = case.get('outputs')
+    on = case['on']
     calls = []
     def rec(key, args):
         calls.append((key, list(args)))
-        return fcode(args)
-    src = 'lambda %s: rec((%s), (%s,))' % (', '.join(names + ['%s=None' % c for c in case['on']]), ''.join(c + ',' for c in case['on']), ', '.join(names))
+        v = fvals(case, args)
+        return dict(zip(outs, v)) if outs else v[0]
+    src = 'lambda %s: rec((%s), (%s,))' % (', '.join(names + ['%s=None' % c for c in on]), ''.join(c + ',' for c in on), ', '.join(names))
     f = eval(src, {'rec': rec})
-    p = perdictable(f, on=list(case['on']), defaults=defaults)
+    if outs: f.output = list(outs)          # a function declared with named outputs: handled by _dict_output
+    p = perdictable(f, on=list(on), defaults=defaults)
     try:
         r = p(**inputs)
     except Exception as e:
         return {'status': err_name(e), 'obs': ['ERR', err_name(e)], 'viol': 'perdictable raised %s: %s' % (type(e).__name__, str(e)[:150])}
-    on = case['on']
-    def call_key(k):      # the key columns f saw (None when the row has no key column: the scalar call)
-        return [] if all(c is None for c in k) and case_scalar else obs_key(k)
     kind, exp = expected(case)
     case_scalar = kind == 'scalar'
+    def call_key(k):      # the key columns f saw (None when the row has no key column: the scalar call)
+        return [] if all(c is None for c in k) and case_scalar else obs_key(k)
     trace = sorted([[call_key(k), [obs_pv(v) for v in a]] for k, a in calls], key=JKEY)
-    viol = None
-    if isinstance(r, dictable):
-        if case['data'] is not None and r is inputs.get('data'):
-            res = ['data', [[obs_key([r[c][i] for c in on]), obs_pv(r['data'][i])] for i in range(len(r))]]
-            got_rows = None
+    viol = None; got_rows = None
+    if outs:
+        # ---- dict-output path: {output: table(on + output)} | f's own dict | the supplied caches
+        if not isinstance(r, dict) or isinstance(r, dictable) or list(r.keys()) != list(outs) and sorted(r.keys()) != sorted(outs):
+            return {'status': 'ok', 'obs': ['ERR', 'shape'], 'viol': 'a function with outputs %s must return one entry per output, got %r' % (outs, type(r).__name__)}
+        vals = [r[o] for o in outs]
+        if all(v is inputs.get(o) for o, v in zip(outs, vals)):
+            res = ['dempty', ['None' if v is None else [[obs_key([v[c][i] for c in on]), obs_pv(v[dcol(v, on)][i])] for i in range(len(v))] for v in vals]]
+        elif all(isinstance(v, dictable) for v in vals):
+            tabs = []
+            for o, v in zip(outs, vals):
+                if sorted(v.keys()) != sorted(on + [o]):
+                    return {'status': 'ok', 'obs': ['ERR', 'columns'], 'viol': 'output %s: columns %s, expected the key columns and %s' % (o, sorted(v.keys()), o)}
+                tabs.append([(tuple(v[c][i] for c in on), v[o][i]) for i in range(len(v))])
+            ks = [[kcanon(k) for k, _ in t] for t in tabs]
+            if any(k != ks[0] for k in ks):
+                return {'status': 'ok', 'obs': ['ERR', 'keys'], 'viol': 'the outputs do not share their rows: %s' % ks}
+            got_rows = [(tabs[0][i][0], [t[i][1] for t in tabs]) for i in range(len(tabs[0]))]
+            res = ['dict', [[obs_key(k), [obs_pv(v) for v in vs]] for k, vs in got_rows]]
+        elif not any(isinstance(v, dictable) for v in vals):
+            res = ['dscalar', [obs_pv(v) for v in vals]]
         else:
-            if sorted(r.keys()) != sorted(on + ['data']):
-                viol = 'result columns %s, expected the key columns and data' % sorted(r.keys())
-                return {'status': 'ok', 'obs': ['ERR', 'columns'], 'viol': viol}
-            got_rows = [(tuple(r[c][i] for c in on), r['data'][i]) for i in range(len(r))]
-            res = ['table', [[obs_key(k), obs_pv(v)] for k, v in got_rows]]
-    elif r is None:
-        res = 'None'; got_rows = None
+            return {'status': 'ok', 'obs': ['ERR', 'mixed'], 'viol': 'outputs are a mix of tables and values: %r' % [type(v).__name__ for v in vals]}
+        scalar_res = ['dscalar', fvals(case, exp)] if case_scalar else None
     else:
-        res = ['scalar', obs_pv(r)]; got_rows = None
-    # ---- oracle
+        if isinstance(r, dictable):
+            if case['data'] is not None and r is inputs.get('data'):
+                res = ['data', [[obs_key([r[c][i] for c in on]), obs_pv(r['data'][i])] for i in range(len(r))]]
+            else:
+                if sorted(r.keys()) != sorted(on + ['data']):
+                    viol = 'result columns %s, expected the key columns and data' % sorted(r.keys())
+                    return {'status': 'ok', 'obs': ['ERR', 'columns'], 'viol': viol}
+                got_rows = [(tuple(r[c][i] for c in on), [r['data'][i]]) for i in range(len(r))]
+                res = ['table', [[obs_key(k), obs_pv(v[0])] for k, v in got_rows]]
+        elif r is None:
+            res = 'None'
+        else:
+            res = ['scalar', obs_pv(r)]
+        scalar_res = ['scalar', fcode(exp)] if case_scalar else None
+    # ---- oracle (both paths)
     if kind == 'scalar':
-        if res != ['scalar', fcode(exp)]:
-            viol = 'all inputs are scalars: expected f(...) = %s itself, got %s' % (fcode(exp), res)
+        if res != scalar_res:
+            viol = 'all inputs are scalars: expected f(...) = %s itself, got %s' % (scalar_res, res)
         elif [a for _, a in calls] != [exp]:
             viol = 'all inputs are scalars: f must be evaluated once on them, calls were %s' % calls
     elif not exp:
@@ -220,13 +268,17 @@ def impl(case):
                     if runs:
                         if n != 1: viol = 'row %s must be computed exactly once, f was called %d times' % (k, n); break
                         if by_key[c][0] != args: viol = 'row %s: f called with %s, expected %s' % (k, by_key[c][0], args); break
-                        if v != fcode(args): viol = 'row %s: value %s, expected f%s = %s' % (k, v, tuple(args), fcode(args)); break
+                        if v != fvals(case, args): viol = 'row %s: value %s, expected f%s = %s' % (k, v, tuple(args), fvals(case, args)); break
                     else:
-                        if n: viol = 'row %s has an expiry in the past: it must keep its value, but f was called' % (k,); break
+                        if n: viol = 'row %s has an expiry in the past: it must keep its value, but f was called %d times' % (k, n); break
                         if v != cached: viol = 'row %s has an expiry in the past: value %s, expected the supplied %s' % (k, v, cached); break
                 if viol is None and len(calls) != sum(1 for e in exp if e[2]):
                     viol = 'f was called %d times for %d rows needing evaluation' % (len(calls), sum(1 for e in exp if e[2]))
     return {'status': 'ok', 'obs': [res, trace], 'viol': viol}
+
+def dcol(t, on):
+    """the value column of a supplied cache table handed back untouched"""
+    return [c for c in t.keys() if c not in on][0]
 
 # ------------------------------------------------------------------ bookkeeping
 def nontrivial(case, result):
@@ -243,7 +295,12 @@ def nontrivial(case, result):
 def shape(case):
     t = sum(1 for a in case['args'] if a['kind'] == 'table'); d = sum(1 for a in case['args'] if 'default' in a)
     x = case['expiry']
-    return '%s:n%d:t%d:d%d:on%d:%s:%s' % (case.get('stream', '?'), len(case['args']), t, d, len(case['on']), 'data' if case['data'] is not None else '-',
+    if case.get('outputs'):
+        cl = cache_list(case)
+        dat = 'D%d/%d' % (sum(1 for _, c in cl if c is not None), len(cl))
+    else:
+        dat = 'data' if case['data'] is not None else '-'
+    return '%s:n%d:t%d:d%d:on%d:%s:%s' % (case.get('stream', '?'), len(case['args']), t, d, len(case['on']), dat,
                                           '-' if x is None else 'xs' if 'scalar' in x else 'xt')
 def shrink(case):
     if case.get('stream') == 'seed': return
@@ -256,6 +313,10 @@ def shrink(case):
             if a.get('layout', 'named') != 'named':
                 yield dict(case, args=case['args'][:i] + [dict(a, layout='named')] + case['args'][i + 1:])
     if case['data'] is not None: yield dict(case, data=None)
+    for o in list((case.get('caches') or {})):
+        yield dict(case, caches={k: v for k, v in case['caches'].items() if k != o})
+    if case.get('outputs') and len(case['outputs']) > 1:
+        yield dict(case, outputs=case['outputs'][:-1], caches={k: v for k, v in (case.get('caches') or {}).items() if k in case['outputs'][:-1]})
     if case['expiry'] is not None: yield dict(case, expiry=None)
 
 # ------------------------------------------------------------------ generation
@@ -301,6 +362,16 @@ def rand_case(rng, stream='rand'):
     elif r < 0.6:
         case['expiry'] = {'scalar': rng.choice(['past', 'future', 'none'])}
     if rng.random() < 0.1: case['defaults_given'] = True
+    if rng.random() < 0.4:
+        # dict-output path: f declared with named outputs, one cache per output (each supplied or not)
+        outs = rng.choice([['p'], ['p', 'q'], ['q', 'p'], ['p', 'q', 'r']])
+        every = rng.random() < 0.55
+        caches = {}
+        for i, o in enumerate(outs):
+            if every or rng.random() < 0.5:
+                caches[o] = {'rows': rand_rows(rng, uni, lambda g, i=i: g.choice([None, 500 + i, 600 + i, 700 + i])),
+                             'layout': rng.choice(['named', 'named', 'data', 'other']), 'order': rng.choice([0, 1, 2])}
+        case['outputs'] = outs; case['caches'] = caches; case['data'] = None
     return case
 
 def exhaustive():
@@ -321,11 +392,17 @@ def exhaustive():
                         c['data'] = {'rows': [[K[1], 500], [K[2], 600]]}
                         if e != 'absent': c['expiry'] = {'rows': [[K[1], e], [K[0], 'past']], 'layout': 'data'}
                     out.append(c)
+                    if e is not None:
+                        # the same overlap pattern through the dict-output path: outputs p, q; q cached for y only, or not supplied
+                        for qc in ([[K[1], 501]], None):
+                            c2 = dict(c, data=None, outputs=['p', 'q'], caches={'p': {'rows': [[K[1], 500], [K[2], 600]]}})
+                            if qc is not None: c2['caches']['q'] = {'rows': qc}
+                            out.append(c2)
     return out
 
 def gen_cases(rng, tier):
     q = tier == 'quick'
     cases = [rand_case(rng) for _ in range(2500 if q else 30000)]
     ex = exhaustive()
-    cases.extend(rng.sample(ex, 400) if q else ex)
+    cases.extend(rng.sample(ex, 600) if q else ex)
     return cases
